@@ -96,7 +96,12 @@ def main(c):
                      "4-octet AS) x 20 attribute types (incl. MP_REACH itself) x 10 corruption kinds" +
                      " x an optional second corrupted attribute (5 in-place corruption kinds)" +
                      "; distinct = distinct cases of Rfc7606.tla")
+    if not c.violations:
+        import drvlib
+        ev, dn = c.cov["evaluations"], c.cov.get("distinct_nontrivial", 0)
+        drvlib.ibgp_only_from_external(c)
+        c.cov["distinct_nontrivial"] = dn
     c.assumptions += ["one announced prefix and at most one withdrawn prefix per message; IPv4 unicast (legacy NLRI) and IPv6 "
                       "unicast (MP_REACH/MP_UNREACH) only; confederation peers are treated as iBGP by validate_message (is_ebgp = false)",
                       "the RIB is not involved: 'installed' = a Reach for the announced prefix in validate_message's output "
-                      "(PeerSession::rx_msg installs exactly those - bound by C09's inbound replay)"]
+                      "(PeerSession::rx_msg installs exactly those - bound by C09's inbound replay; which session kinds count as external is bound here, on real sessions of every kind)"]
